@@ -81,6 +81,7 @@ def c16(ctx):
 def c02(ctx):
     ctx.assumptions.append("HashMap iteration order is modelled as an arbitrary permutation oracle; threads as arbitrary interleavings of calls that share only the immutable Linter")
     r = PP.pipeline_check(ctx, "C02", {"force": None, "clauses": ["C03"]}, n=6000 if ctx.tier == "quick" else 60000)
+    ctx.proof_stage("C02_regex", [])
     if r is None:
         return
     scs, outs, outs0, builtin = r
@@ -344,7 +345,34 @@ def c04(ctx):
                     nproj += 1
                     if nproj <= 3:
                         ctx.violation("C04.projection-differs:" + c, "rule %s alone vs with %s" % (c, name), {"alone": cases[k + 3 + j], "with": cases[k] if name == "all" else cases[k + 1]})
-    ctx.correspondence("per-rule projection: {r} vs random superset vs all rules, two supply orders (implementation differential)", len(cases), len(nontriv), [],
+    # every test program of every rule: the rule alone vs small sets (with the accounting rules, with one other rule) vs all rules
+    small, smeta = [], []
+    for sn in get_corpus():
+        own = sn["rule_file"].replace("_", "-")
+        if own not in ordinary:
+            continue
+        base = {"src": sn["src"], "media": "tsx" if sn["rule_file"].startswith(("jsx", "react")) else "ts"}
+        k = len(small)
+        other = rng.choice(ordinary)
+        sets = [[own], [own, "ban-unused-ignore"], [own, "ban-unknown-rule-code"], ["ban-unused-ignore", "ban-unknown-rule-code", own, other], "all"]
+        for rs in sets:
+            small.append(dict(base, rules=rs))
+        smeta.append((k, own, len(sets)))
+    sres = lib.run_vh("lint", small, per_case_timeout=5)
+    for (k, own, ns) in smeta:
+        if status(sres[k]) != "ok":
+            continue
+        p0 = proj(sres[k], own)
+        if p0:
+            nontriv.add((small[k]["src"], own))
+        for j in range(1, ns):
+            if status(sres[k + j]) != "ok":
+                continue
+            if proj(sres[k + j], own) != p0:
+                nproj += 1
+                if nproj <= 4:
+                    ctx.violation("C04.projection-differs:" + own, "rule %s alone vs with %s" % (own, small[k + j]["rules"]), {"alone": small[k], "with": small[k + j]})
+    ctx.correspondence("per-rule projection: {r} vs random superset vs all rules, two supply orders; every repo test program: {r} vs {r}+accounting rules vs {r}+other vs all (implementation differential)", len(cases) + len(small), len(nontriv), [],
                        "repo test programs; non-trivial := (program, rule) with at least one diagnostic of that rule")
 
 
@@ -382,6 +410,20 @@ def c09(ctx):
     rng = random.Random(ctx.seed + 9)
     cases, meta = [], []
     progs = [{"src": s["src"], "media": rng.choice(MEDIA), "rules": "all"} for s in sample_corpus(rng, 1500 if ctx.tier == "quick" else 10 ** 6)]
+    # rules that compute positions by hand: every test program of theirs, every prefix
+    POSITION_RULES = ("prefer_ascii", "no_irregular_whitespace", "ban_untagged_todo", "ban_ts_comment", "jsx_curly_braces", "ban_untagged_ignore",
+                      "no_invalid_triple_slash_reference", "jsx_no_unescaped_entities", "jsx_props_no_spread_multi", "jsx_boolean_value", "no_control_regex")
+    hand = [{"src": s["src"], "media": "tsx" if s["rule_file"].startswith("jsx") else rng.choice(["ts", "js"]), "rules": [s["rule_file"].replace("_", "-")], "allprefixes": True}
+            for s in get_corpus() if s["rule_file"] in POSITION_RULES]
+    progs += hand
+    # constructs that START with a hand-positioned character (the prefix then shares the inter-token gap with it)
+    IRR = ["\u000b", "\u000c", "\u00a0", "\u0085", "\u1680", "\u2003", "\u202f", "\u205f", "\u3000", "\u2028", "\u2029"]
+    for c in IRR:
+        for body in ("var a = 1;", "x;\n" + c + "y;", "/* " + c + " */ x;", "// " + c + "\nx;"):
+            progs.append({"src": c + body, "media": rng.choice(["ts", "js"]), "rules": ["no-irregular-whitespace"], "allprefixes": True})
+    for c in ["é", "漢", "😀", "“", "—"]:
+        for body in ("x;", "/* " + c + " */ y;", "const s = '" + c + "';", "// " + c + "\nz;"):
+            progs.append({"src": c + body if body == "x;" else body + " " + c, "media": "ts", "rules": ["prefer-ascii"], "allprefixes": True})
     progs += [pipe.impl_case(s) for s in scs[:1000] if not s["src"].startswith("#!")]
     for p in progs:
         if p["src"].startswith("#!"):
@@ -389,7 +431,8 @@ def c09(ctx):
         k = len(cases)
         cases.append(p)
         variants = []
-        for (pre, nl) in (PREFIXES if ctx.tier == "thorough" else rng.sample(PREFIXES, 2)):
+        allp = p.pop("allprefixes", False)
+        for (pre, nl) in (PREFIXES if (ctx.tier == "thorough" or allp) else rng.sample(PREFIXES, 2)):
             q = dict(p, src=pre + p["src"])
             if q.get("ext") and q["ext"].get("diags"):
                 q["ext"] = json.loads(json.dumps(q["ext"]))
@@ -510,6 +553,7 @@ def parser_input_class(case):
 def c01(ctx):
     ctx.assumptions.append("totality is PROVED only for the modelled cores (directive parser, pipeline arithmetic, regex validator, CF analyzer unwraps, traverse flag machine); for the ~110 rule bodies and swc it is an exploration (search for a failing input), stated as such")
     ctx.proof_stage("C01", [])
+    ctx.proof_stage("C01_regex", [])
     rng = random.Random(ctx.seed + 1)
     reg = lib.vh_registry()
     codes = [r["code"] for r in reg["rules"]]
